@@ -167,3 +167,11 @@ P('C20', suites=[], run_files=['Tie.v'], static_files=BASE_STATIC, extras=[extra
   trusted=['runtime.MemStats.TotalAlloc as the cost measure; runtime constants (bytes per map slot, append doubling) are measured'])
 T('C20', 'PARTIAL: proof-of-model + measurement. Run time: TotalAlloc of adversarial families (large container then many small siblings, reused reader after a huge document, escapes at every nesting level, deep nesting, many small documents) at sizes spanning x4/x8 must stay linear and below a fixed constant per input byte',
   _TIE + 'The Go allocator is measured, not modelled.', 'size-hint model + TotalAlloc measurement of adversarial families')
+
+MACH_STATIC = BASE_STATIC + ['MachineFacts.v', 'Wf.v', 'Safety.v', 'ApiFacts.v']
+for _p in ('C01', 'C02', 'C06', 'C07', 'C11', 'C13'):
+    PROPS[_p]['run_files'] = ['Tie.v', 'TieWf.v']
+    PROPS[_p]['static_files'] = PROPS[_p].get('static_files', BASE_STATIC) + ['MachineFacts.v', 'Wf.v', 'Safety.v']
+PROPS['C09'].update(run_files=['Tie.v', 'TieWf.v', 'PropsC09.v'], static_files=MACH_STATIC)
+PROPS['C10'].update(run_files=['Tie.v', 'TieWf.v', 'PropsC10.v'], static_files=MACH_STATIC)
+PROPS['C14'].update(run_files=['Tie.v', 'TieWf.v', 'PropsC14.v'], static_files=MACH_STATIC)
